@@ -148,7 +148,10 @@ def write_project(root, files, seed, opts_extra, name="Determinism", pages=True)
     # is a prefix of the other
     long_name = "long_" + "abcdefghij" * 17 + f"_{seed % 1000}.f90"
     open(os.path.join(proj, "src", long_name), "w").write(f"module zlong{seed % 1000}\n!! doc of the module in the long file\nimplicit none\nFLOAT_PTR :: cursor\n!! doc of cursor\nFLOAT :: plainf\n"
-                                                           f"!! doc of plainf\nFLOAT_PTR_ARR :: cursors(3)\n!! doc of cursors\nend module zlong{seed % 1000}\n")
+                                                           f"!! doc of plainf\nFLOAT_PTR_ARR :: cursors(3)\n!! doc of cursors\n"
+                                                           # several attribute statements naming one variable: they apply in the order they are written
+                                                           + "".join(f"integer :: hsv{k} = {k}\n!! doc of hsv{k}\npublic :: hsv{k}\nprotected :: hsv{k}\n" for k in range(6))
+                                                           + f"end module zlong{seed % 1000}\n")
     opts["extra_vartypes"] = ["FLOAT", "FLOAT_PTR_ARR", "FLOAT_PTR"] if seed % 2 else ["FLOAT_PTR", "FLOAT", "FLOAT_PTR_ARR"]
     # INCLUDE: two include directories hold a file of one name (the first one listed wins), and an include line whose spelling
     # matches no file exactly while two files differ from it in letter case only (FORD reports it and goes on)
